@@ -47,6 +47,15 @@ CHECKS = {
               "the adversary acts after read k for every k (thorough: every ordered pair of points for every pair of actions), 11 variants x 2 pointer sources x 7 actions; each observed outcome must be in the model's outcome set over all "
               "byte-level schedules and satisfy the oracle (application memory, unchanged after the region is overwritten, terminator inside a buffer of known size). One genuine defect found and repaired (5202ca0)."),
         note=NOTE + "Partial: atomicity of one machine read is assumed; the correspondence scenario is fixed (the theorems are not); a null struct pointer dereferenced by copy_and_verify (no window involved) is C03/F7 territory and is not judged here."),
+    "C18": dict(
+        engine="thr", design_ref="DESIGN.md §6 C18",
+        technique="Lean 4 noninterference theorem by simulation over ALL interleavings of owned atomic steps (induction over the schedule) + source facts (lock discipline, thread_local, atomic) regenerated from /repo as proof obligations + ThreadSanitizer execution of random multi-thread scenarios with per-thread concurrent/alone/model log comparison",
+        text=("Proof: C18_noninterference (for every interleaving of any number of threads, each operating on its own instances with pairwise disjoint regions: every thread observes exactly what it observes running alone; "
+              "arbitrary instance-private operations, overlapping create/destroy by others, example-based lookups in the shared live list in any order), C18_tls (a callback sees the sandbox its own thread entered), find_own, "
+              "step_nodup, registry_accesses_guarded (every write to sandbox_list inside a UNIQUE guard, every read inside a SHARED/UNIQUE guard), thread_data_is_thread_local, status_is_atomic, sandbox_list_is_static -- the last four "
+              "about facts regenerated from the source on every run. Tied to the code by seeded scenarios of 2..16 threads under ThreadSanitizer on the vsbx backend (example-based lookups) and the noop backend (real trampolines): "
+              "per-thread concurrent log = alone log = model's sequential log, no TSan report."),
+        note=NOTE + "Partial by nature: data-race freedom under the C++ memory model is sampled by ThreadSanitizer on the explored schedules, not proved; the theorem covers the logic of what is shared and that results do not depend on the schedule. The dylib backend is not executed."),
     "C06": dict(
         engine="conv", design_ref="DESIGN.md §6 C06",
         technique="Lean 4 theorem over all integer type pairs and values (case split + omega) + differential execution vs model driver + 128-bit oracle",
@@ -209,7 +218,7 @@ def main():
             "source_commits": [],
             "add_only": True,
         },
-        "engines": [{"name": e, "path": ("gen/typing_table.py + lean/Driver/TypingEng.lean" if e == "typing" else "gen/structs.py + harness/structs_common.hpp + lean/Driver/StructEng.lean" if e == "struct" else "harness/h_snap.cpp (mprotect/trap-flag interposer) + lean/Driver/SnapEng.lean" if e == "snap" else f"harness/h_{e}.cpp + lean/Driver"), "serves_properties": sorted(ps),
+        "engines": [{"name": e, "path": ("gen/typing_table.py + lean/Driver/TypingEng.lean" if e == "typing" else "gen/structs.py + harness/structs_common.hpp + lean/Driver/StructEng.lean" if e == "struct" else "harness/h_snap.cpp (mprotect/trap-flag interposer) + lean/Driver/SnapEng.lean" if e == "snap" else "harness/h_thr.cpp (clang++-14 -fsanitize=thread) + lean/Driver/ThrEng.lean" if e == "thr" else f"harness/h_{e}.cpp + lean/Driver"), "serves_properties": sorted(ps),
                      "kind_free_text": "line-protocol differential engine (C++ harness on real headers vs Lean model driver)"} for e, ps in sorted(engines.items())],
         "checks": checks,
         "not_applicable": na,
